@@ -9,6 +9,7 @@ import SimplicityModel.Prog.Infer
 import SimplicityModel.InferTerm
 import SimplicityModel.Prog.InferUBProps
 import SimplicityModel.Prog.InferUBBisim
+import SimplicityModel.Prog.InferUBTerm
 
 namespace Props.C04
 open Prog Inf
@@ -327,6 +328,43 @@ theorem inferUB_order_independent (F F' : Nat) (jt : JetTypes) (p : Plan) (order
       rw [key F order arrows E ea hnd hall hE h, key F' order' arrows' E' ea' hnd' hall' hE' h']
     · rw [hc'] at h'; cases h'
     · rw [hc'] at h'; cases h'
+
+open UB in
+/-- **(c) `unify`/`bind` terminate, explicit bound.**  Any sequence of context operations
+(`Type::free/complete/sum/product`, `unify`, `bind_product`) run from the empty context with fuel
+`2·(number of operations) + Hm + 3` — `Hm` = 1 + height of the tallest complete type an operation
+introduces — never runs out of fuel: ranks strictly increase along parent links and are bounded by
+the number of elements, so `root_element` finds a root; every nested `unify` that reaches the bind
+closure has removed a root; the recursion against a complete type descends into that type; eager
+completion makes complete types one taller but uses up an incomplete slab entry. -/
+theorem unify_bind_terminate (F Hm : Nat) (ops : List Op) (hops : ∀ op ∈ ops, OpH Hm op)
+    (hF : 2 * ops.length + Hm + 3 ≤ F) : runOps F {} ops ≠ .error .fuel :=
+  (runOps_total (F := F) ops (tinv_empty Hm)
+    (by simp only [show ({} : Ctx).elems.size = 0 from rfl, show ({} : Ctx).slab.size = 0 from rfl]; omega)
+    hops).1
+
+/-- **(c) the construction phase of `inferUB` terminates**: with fuel `20·|order| + planH + 9`
+(`planH` = 1 + height of the tallest jet/word type of the plan) every `Arrow::…` constructor and
+`set_arrow_to_program` finish. -/
+theorem inferUB_construction_terminates (F : Nat) (jt : JetTypes) (p : Plan) (order : List Nat)
+    (program : Bool) (hF : 20 * order.length + planH jt p + 9 ≤ F) :
+    buildAll F jt p order program ≠ .error .fuel :=
+  buildAll_total F jt p order program hF
+
+/-- **(c), what is missing.**  With that fuel the whole run can report `fuel` only from the
+finalisation phase: the construction succeeded and `finalizeAll` (the explicit-stack occurs check
+and the post-order loop of `Type::finalize`) ran out.  Not proved: that the occurs-check loop needs
+at most `4·|slab| + 1` iterations and that after a passed occurs check the post-order recursion is
+at most `|slab|` deep. -/
+theorem inferUB_terminates_partial (F : Nat) (jt : JetTypes) (p : Plan) (order : List Nat)
+    (program : Bool) (hF : 20 * order.length + planH jt p + 9 ≤ F)
+    (h : inferUBWith F jt p order program = .fuel) :
+    ∃ st, buildAll F jt p order program = .ok st ∧ finalizeAll F p st = .fuel := by
+  unfold inferUBWith at h
+  have hb := buildAll_total F jt p order program hF
+  cases hr : buildAll F jt p order program with
+  | error r => rw [hr] at h; dsimp only at h; subst h; exact absurd hr hb
+  | ok st => rw [hr] at h; exact ⟨st, rfl, h⟩
 
 /-! Non-vacuity: an accepted plan built out of index order, an occurs-check rejection, a clash. -/
 example : ∃ E ea, ubEqns (fun _ => none) #[.unit, .injl 0, .iden, .comp 1 2] [2, 0, 1, 3] false = some (E, ea) ∧
